@@ -1,8 +1,8 @@
-\* thorough: base 1, heights up to 7, empty blocks, sub-range queries, two graceful stops
+\* thorough: base 1, heights up to 6, empty blocks, sub-range queries, two graceful stops
 CONSTANTS
   W = 3
   Base = 1
-  MaxBlocks = 7
+  MaxBlocks = 6
   MaxGraceful = 2
   BlockMenu <- BlocksEAB
   FilterMenu <- FiltersSmall
